@@ -11,7 +11,14 @@ Child-side only (imports pandas lazily).  Two parts:
       actually lowered, i.e. after lian's own source preprocessing) for the source-order part of I6;
     - `GIRProcessing.flatten`          (records the ids flatten handed out) for the "nothing lost while gathering
       top-level code" part of I6.
-  None of the wrappers changes an argument or a return value.
+    - `GIRParser.translate_file_unit`  (when the tree has lian's own per-file containment): records the exception
+      lian is about to swallow (evidence: which files end without GIR because of a contained failure), re-raises;
+    - `util.error_and_quit`            (keeps the diagnostic of a deliberate exit); a SystemExit that leaves the
+      per-file entry is recorded as status "quit" with the innermost lian function that asked for it — it ends the
+      phase for the whole project, which the check confirms with an unwrapped probe before reporting it;
+    - `DataFrame.to_feather`           (records write failures that DataModel.save swallows).
+  `Parser.parse_gir` also records how many statements the frontend produced (0 = a file that lowers to nothing).
+  None of the wrappers changes an argument, a return value or the exception that propagates.
 * `judge(df, rec, units)` evaluates I1..I6 over the rows read back from the bundle.
 
 The invariants are stated exactly as the healthy tree realises them (learnt from dumps of all languages):
